@@ -1,5 +1,6 @@
 import StepupModel.Lemmas.KGlobal
 import StepupModel.Lemmas.StableInst
+import StepupModel.Lemmas.Acyclic
 /-!
 # C09  The stored workflow satisfies its invariants after every transaction
 
@@ -208,6 +209,25 @@ nodes (the structural half of "every path has one owner"). -/
 theorem one_node_per_key_after_every_history (h : List (KConfig × Req)) :
     ((KState.init.run h).nodes.map (·.key)).Nodup :=
   keysNodup_reachable h
+
+/-- "Dependencies are acyclic" after every history: no chain of dependency edges leads from a
+node back to itself.  The insertion sites (`_supply_files`, `add_source`) check the recursive
+sinks first; `mem_sinkClosure_iff` shows that the model of that recursive query computes exactly
+the nodes reachable through edges, and a batch of new input edges of one step needs only one
+check on the state before the batch. -/
+theorem dependencies_acyclic_after_every_history (h : List (KConfig × Req)) :
+    ∀ k, ¬ Path (KState.init.run h).deps k k :=
+  acyclic_reachable h
+
+/-- The cycle check of the model is exact: `b` is in the recursive sinks of `a` iff `b = a` or a
+chain of edges leads from `a` to `b`. -/
+theorem cycle_check_is_exact (s : KState) (a b : Key) :
+    b ∈ s.sinkClosure a ↔ b = a ∨ Path s.deps a b :=
+  mem_sinkClosure_iff s a b
+
+/-- Acyclicity is NOT a consequence of the primitive writes alone (an unchecked, kind-correct
+edge insertion can close a cycle): the check at the insertion sites is what carries it. -/
+theorem acyclicity_needs_the_check : ¬ Stable Acyclic := acyclic_not_stable
 
 theorem stepRowInv_eq (n : Node) : StepRowInv n ↔ StepRowOK n := Iff.rfl
 
